@@ -860,3 +860,7 @@ CORPUS += [
     V("C03", "fjsp-stepwise-reward-sum-of-bounds", _FJ, 'td["reward"] = -(lbs.max(1).values - td["lbs"].max(1).values)', 'td["reward"] = -(lbs.max(1).values + td["lbs"].max(1).values)', "C03.d"),
     V("C03", "eq-fjsp-stepwise-reward-rewritten", _FJ, 'td["reward"] = -(lbs.max(1).values - td["lbs"].max(1).values)', 'td["reward"] = td["lbs"].max(dim=1)[0] - lbs.max(dim=1)[0]', None),
 ]
+
+CORPUS += [
+    V("C08", "mdpp-quota-not-refreshed-again", "rl4co/envs/eda/mdpp/env.py", "        self.max_decaps = self.generator.max_decaps\n", "", "C08.e"),
+]
